@@ -75,6 +75,14 @@ def main():
             print(out[-2000:])
             raise SystemExit(2)
         print('sany  %-28s ok' % os.path.basename(m))
+    # hand-written examples guarding Lexical.tla (ASSUMEs evaluated by TLC at start-up)
+    wd = tlc.workdir('lextest')
+    open(os.path.join(wd, 'LT.tla'), 'w').write('---- MODULE LT ----\nEXTENDS LexicalTest\n====\n')
+    open(os.path.join(wd, 'LT.cfg'), 'w').write('INIT Init\nNEXT Next\n')
+    lt = tlc.run(os.path.join(wd, 'LT.tla'), os.path.join(wd, 'LT.cfg'), workers=1, timeout=300)
+    if not lt['complete']:
+        raise tlc.TLCError('LexicalTest failed:\n' + lt['out'][-3000:])
+    print('LexicalTest: all lexical-space examples hold')
     r = selfcheck(J)
     print('SchemaSelfCheck: %d states, automata == particle-tree semantics, Ext == relaxed-tree semantics (%.0fs)' % (r['distinct'], r['wall']))
     print('setup done in %.0fs' % (time.time() - t0))
